@@ -64,7 +64,7 @@ type DFA struct {
 	nfa       *nfa.NFA
 	config    Config
 	prefilter prefilter.Prefilter
-	pikevm    *nfa.PikeVM // NFA fallback — may be shared with Engine (Issue #158)
+	pikevm    *pikevmPool // NFA fallback: one PikeVM per running fallback (see pikevmPool)
 
 	// byteClasses maps bytes to equivalence classes for alphabet reduction.
 	// Bytes in the same class have identical transitions in all DFA states.
